@@ -1338,7 +1338,7 @@ class BinaryOperator(SymbolicExpression, ABC):
             -> Iterable[Dict[int, HashedValue]]:
         cache = self._cache_ if cache is None else cache
         entered = False
-        for output, is_false in cache.retrieve(variables_sources):
+        for output, is_false in self._retrieve_distinct_(cache, variables_sources):
             entered = True
             self._is_false_ = is_false
             cache_match_count.values[self._node_.name] += 1
@@ -1350,9 +1350,38 @@ class BinaryOperator(SymbolicExpression, ABC):
         cache_enter_count.values[self._node_.name] = cache.enter_count
         cache_search_count.values[self._node_.name] = cache.search_count
 
+    @staticmethod
+    def _retrieve_distinct_(cache: IndexedCache, variables_sources) -> Iterable[Tuple[Dict[int, HashedValue], bool]]:
+        """
+        Retrieve the cached outputs that match the given sources, each solution once: the same solution may have been
+        cached under a general binding (some keys left open, because an operand of a disjunction did not need them)
+        and again under a more specific binding, the more specific ones add nothing to the general one.
+        """
+        retrieved = list(cache.retrieve(variables_sources))
+        if len(retrieved) < 2:
+            yield from retrieved
+            return
+        keys = cache.keys
+        general_bindings = []
+        seen = set()
+        # more general bindings first (the sort is stable, so outputs of equally specific bindings keep their order)
+        for output, is_false in sorted(retrieved, key=lambda r: sum(1 for k in keys if k in r[0])):
+            binding = {k: output[k].id_ for k in keys if k in output}
+            if any(flag == is_false and all(binding.get(k) == v for k, v in general.items())
+                   for general, flag in general_bindings):
+                continue
+            if len(binding) < len(keys):
+                general_bindings.append((binding, is_false))
+            else:
+                key = (tuple(sorted(binding.items())), is_false)
+                if key in seen:
+                    continue
+                seen.add(key)
+            yield output, is_false
+
     def yield_from_cache(self, variables_sources, cache: IndexedCache) -> Iterable[Tuple[Dict[int, HashedValue], bool]]:
         entered = False
-        for output, is_false in cache.retrieve(variables_sources):
+        for output, is_false in self._retrieve_distinct_(cache, variables_sources):
             entered = True
             cache_match_count.values[self._node_.name] += 1
             yield output, is_false
